@@ -70,13 +70,13 @@ func init() {
 		"internal/bytealg.IndexByteString": icIndexByteString,
 		"strings.IndexByte":                icIndexByteString,
 		"internal/bytealg.Count":           icCountByte,
-		"strings.Contains":   icStringsContains,
-		"strings.Replace":    icStringsReplace,
-		"strings.ReplaceAll": icStringsReplaceAll,
-		"strings.HasPrefix":  icStringsHasPrefix,
-		"strings.TrimSpace":  icStringsConcrete1(strings.TrimSpace),
-		"strings.ToLower":    icStringsConcrete1(strings.ToLower),
-		"strings.ToUpper":    icStringsConcrete1(strings.ToUpper),
+		"strings.Contains":                 icStringsContains,
+		"strings.Replace":                  icStringsReplace,
+		"strings.ReplaceAll":               icStringsReplaceAll,
+		"strings.HasPrefix":                icStringsHasPrefix,
+		"strings.TrimSpace":                icStringsConcrete1(strings.TrimSpace),
+		"strings.ToLower":                  icStringsConcrete1(strings.ToLower),
+		"strings.ToUpper":                  icStringsConcrete1(strings.ToUpper),
 
 		"time.LoadLocation":            icLoadLocation,
 		"time.Now":                     icTimeNow,
@@ -129,10 +129,10 @@ func init() {
 			return nil
 		},
 
-		"(*os.File).Read":      icFileRead,
-		"(*os.File).Write":     icFileWrite,
-		"(*os.File).Close":     noopNilErr,
-		"os.Exit":              icOsExit,
+		"(*os.File).Read":  icFileRead,
+		"(*os.File).Write": icFileWrite,
+		"(*os.File).Close": noopNilErr,
+		"os.Exit":          icOsExit,
 
 		"github.com/goblimey/go-tools/dailylogger.New":             icDailyLoggerNew,
 		"(*github.com/goblimey/go-tools/dailylogger.Writer).Write": icDailyLoggerWrite,
